@@ -7,6 +7,8 @@ package main
 
 import (
 	"encoding/json"
+	"google.golang.org/protobuf/encoding/protojson"
+	"google.golang.org/protobuf/proto"
 	"runtime"
 	"strconv"
 
@@ -31,6 +33,7 @@ type limScn struct {
 	Comp     string     `json:"comp"`
 	L        int        `json:"L"`
 	Declared bool       `json:"declared"`
+	Split    bool       `json:"split"` // deliver the sized message in 100-byte pieces
 }
 
 type limObs struct {
@@ -61,7 +64,7 @@ func init() {
 		if ls.Comp != "none" {
 			comp = "gzip"
 		}
-		target := map[string]int{"m1": ls.L - 1, "0": ls.L, "p1": ls.L + 1, "x2": 2 * ls.L}[ls.Delta]
+		target := map[string]int{"m1": ls.L - 1, "0": ls.L, "p1": ls.L + 1, "x2": 2 * ls.L, "x100": 100 * ls.L}[ls.Delta]
 		if ls.Comp == "bomb" {
 			target = 64 * ls.L
 		}
@@ -78,15 +81,30 @@ func init() {
 			kindPrefix = "zeros:"
 		}
 		// find the payload size n for which the chosen representation has exactly the target size
+		pad := 0
+		sizeKind := func(n int) string {
+			if pad > 0 && kindPrefix == "size:" {
+				return kindPrefix + strconv.Itoa(n) + ":" + strconv.Itoa(pad)
+			}
+			return kindPrefix + strconv.Itoa(n)
+		}
 		measure := func(n int) (int, int, int) {
 			rn := newRun(&scenario{Cl: clientSpec{Method: ls.Pairing.Method}}, seed)
-			m := genMsg(rn.rnd, kindPrefix+strconv.Itoa(n), 1)
+			var m proto.Message = genMsg(rn.rnd, sizeKind(n), 1)
+			if ls.Dir == "resp" && rn.respDesc != nil && rn.respDesc.FullName() == "verif.v1.Reply" {
+				m = convertMsg(m, rn.respDesc) // sized as the type it travels as
+			}
 			plain := encodeMsg(srcCodec, m)
 			wire := plain
 			if comp != "" {
 				wire = compressAs(comp, plain)
 			}
-			return len(wire), len(plain), len(encodeMsg(dstCodec, m))
+			recoded := encodeMsg(dstCodec, m)
+			if dstCodec == "json" {
+				// what the transcoder's own JSON codec produces (vanguard's default emits unpopulated fields)
+				recoded, _ = protojson.MarshalOptions{EmitUnpopulated: true}.Marshal(m)
+			}
+			return len(wire), len(plain), len(recoded)
 		}
 		pick := func(sz [3]int) int {
 			return sz[map[string]int{"wire": 0, "plain": 1, "recoded": 2}[ls.Rep]]
@@ -110,6 +128,18 @@ func init() {
 				n = 0
 			}
 		}
+		if w, p, r := measure(n); pick([3]int{w, p, r}) != target && kindPrefix == "size:" && comp == "" {
+			// base64 moves in steps of four: come from below and pad with single characters
+			for n > 0 && pick([3]int{w, p, r}) > target {
+				n--
+				w, p, r = measure(n)
+			}
+			for pad = 1; pad <= 8; pad++ {
+				if w, p, r = measure(n); pick([3]int{w, p, r}) >= target {
+					break
+				}
+			}
+		}
 		obs.Wire, obs.Plain, obs.Recoded = measure(n)
 
 		cfg := cfgSpec{Protos: []string{ls.Pairing.Target}, Codecs: []string{ls.Pairing.TCodec}, Comps: []string{"gzip"}, L: ls.L}
@@ -120,7 +150,7 @@ func init() {
 		if ls.Pairing.Method == "Bidi" {
 			scn.Cl.Major = 2
 		}
-		big := kindPrefix + strconv.Itoa(n)
+		big := sizeKind(n)
 		if ls.Dir == "req" {
 			scn.Msgs["1"] = big
 			if comp != "" {
@@ -140,6 +170,10 @@ func init() {
 				scn.Hd.Comp = comp
 				scn.Hd.Frames[0].Z = true
 			}
+		}
+		if ls.Split {
+			scn.Cl.Chunks = []int{100}
+			scn.Hd.Writes = []int{100}
 		}
 		var before, after runtime.MemStats
 		runtime.GC()
